@@ -1,7 +1,37 @@
+T = "Lean 4 theorems over a hand-written model, tied to the code by compiled-derive correspondence (mode B)"
 CLAIMS = {
- 'C01': ("Lean 4 theorem (first-match characterisation + iff under non-overlap) over a model of from_string.rs, tied to the code by compiled-derive correspondence",
-         "Theorems in lean/StrumProofs/C01.lean characterise parse for every enum definition and every byte string (no bound on variants, spellings or input length); "
-         "the correspondence runs the real EnumString derive on the per-variant exhaustive attribute core x enum-level dimensions with case-flip / one-edit / look-alike inputs.",
+ 'C01': ("Lean 4 proof: first-match characterisation + iff under non-overlap (from_string.rs model); correspondence with compiled derives",
+         "lean/StrumProofs/C01.lean: parse_first_match (no overlap hypothesis), parse_iff, parse_err_iff, parse_never_disabled, fall_spec, noOverlapB_iff - for every enum definition and every byte string, "
+         "no bound on variants, spellings or input length. Correspondence: the real EnumString derive on the per-variant exhaustive attribute core x enum-level dimensions with "
+         "case-flip / one-edit / look-alike / whitespace / raw-identifier inputs; FromStr and TryFrom compared on every input.",
          "DESIGN.md §6 C01", ""),
+ 'C02': ("Lean 4 proof: printed name is a member of the parse-side spelling list + C01's iff; correspondence with compiled derives",
+         "lean/StrumProofs/C02.lean: printed_mem_serializations, roundtrip (every string-producing derive), get_serializations_roundtrip; all definitions, all styles. "
+         "Correspondence: Display/to_string/AsRefStr/IntoStaticStr(by value, by ref, into_str)/get_serializations printed by the real derives and parsed back by the real EnumString, 17 style strings.",
+         "DESIGN.md §6 C02", ""),
+ 'C03': ("Lean 4 proof: every string derive's arm is the canonical name (max_by_key characterised); correspondence with compiled derives",
+         "lean/StrumProofs/C03.lean: canonical spec, longest_spec/longest_unique (max_by_key keeps a longest, last among ties), all_derives_agree for Display, ToString, AsRefStr, AsStaticStr, IntoStaticStr x3, variant_names_at. "
+         "Correspondence: all seven outputs + VARIANTS[i] from the real derives (deprecated ones on a twin enum), serialize lists in every order of lengths incl. byte-vs-char length disagreement, 4 prefixes, 17 styles.",
+         "DESIGN.md §6 C03", ""),
+ 'C11': ("Lean 4 proof parametric in the inner field's impl (forwarding) + C01 corollary (capture); correspondence + format!(spec, inner) oracle",
+         "lean/StrumProofs/C11.lean: default_captures, display_forwards (every spec, every inner function), str_forwards, default_roundtrip. Correspondence: String / Box<str> / &'static str / u32 / i64 / nested derived enum inners, "
+         "tuple and named forms, C01's inputs for capture and round trip, format-spec grid compared with the model and with format!(spec, inner) in Rust.",
+         "DESIGN.md §6 C11", "Partial: rendering of non-string inner values is Rust's; compared against format! inside the Rust driver, not against Lean."),
+ 'C12': ("Lean 4 proof: byte-level characterisation of eq_ignore_ascii_case (equal, or the two cases of one ASCII letter); correspondence with compiled derives",
+         "lean/StrumProofs/C12.lean: ci_flag_spec, eqIgnoreAsciiCase_iff_foldEq, non_ascii_exact, ci_accepts_iff / cs_accepts_iff, lookalikes_rejected (whole table by kernel evaluation), nonascii_vs_ascii_rejected. "
+         "Correspondence: enum flag x variant flag x ASCII/non-ASCII spellings, every 2^k case flip (k <= 8 quick / 12 thorough), look-alikes at each letter, Unicode lower/upper/casefold images, against ci and cs variants alike.",
+         "DESIGN.md §6 C12", ""),
+ 'C16': ("Lean 4 proof: phf parser = plain parser for all inputs, key table duplicate-free under non-overlap; correspondence on twin enums with the phf feature",
+         "lean/StrumProofs/C16.lean: keys_accept, allKeys_nodup, phf_compiles, parse_first_match_phf, phf_same_result, phf_gen_ok. Correspondence: every field-less enum built twice (with / without use_phf, features=[phf]), "
+         "spellings mixed/lower/upper/caseless/non-ASCII/empty/case-variants of each other, ci at both levels, default and disabled variants, C01/C12 input sets; twins compared with each other and with the model.",
+         "DESIGN.md §6 C16", "phf::Map::get is modelled as exact lookup in a duplicate-free key list."),
+ 'C17': ("Lean 4 proof: fixed name => Formatter::pad model for all kinds and specs, argument lists of interpolated arms; correspondence + format! oracle",
+         "lean/StrumProofs/C17.lean: fixed_name_padded (unit/tuple/named, every spec), pad_charCount / pad_contains / takeChars_count (what pad does), named_args_cover, tuple_args_cover, unit_placeholder_rejected, empty_brace_rejected. "
+         "Correspondence: fill x align x width x precision x 0-flag grid on ASCII / multi-byte / empty names vs the Lean pad; placeholder literals (subsets, orders, repeats, nested specs, escaped braces, extreme payloads) vs format! with the same literal in Rust.",
+         "DESIGN.md §6 C17", "Partial: the rendering of placeholders is format_args!'s, compared with format! in the Rust driver. Known finding F4 (tuple placeholders skipping a field) is listed in known_findings.json."),
+ 'C18': ("Lean 4 proof: error = f(s) with call log [s], no call on success, error type selection; correspondence with a call-counting parse_err_fn",
+         "lean/StrumProofs/C18.lean: custom_err, no_call_on_success, std_err, custom_only_if_declared, err_types. Correspondence: C01's corpus without default variants x {custom, standard}; the corpus's parse_err_fn stores its argument and bumps a counter; "
+         "Err types asserted at compile time through <E as FromStr>::Err / <E as TryFrom<&str>>::Error.",
+         "DESIGN.md §6 C18", ""),
 }
 NOT_CLAIMED = {}
